@@ -549,7 +549,10 @@ func (m *Model) Ancestors(loc string) ([]string, error) {
 		defer delete(stack, name)
 		l, ok := m.Locs[name]
 		if !ok {
-			return refuse("unknown location %s", name)
+			if name != loc {
+				return refuse("unknown location %s", name)
+			}
+			l = m.Loc(name)
 		}
 		for _, p := range m.Parents(l) {
 			if err := walk(p, stack); err != nil {
@@ -863,4 +866,251 @@ func (m *Model) RemRaw(loc, id string) {
 		delete(m.unc(l), r)
 	}
 	delete(m.unc(l), id)
+}
+
+// ---- query evaluation (C03) ---------------------------------------------------
+
+// CodeTerm is the closed family of `code` scripts the generator emits; the
+// model evaluates them natively.
+//   {"t":"const","v":<json>}          script: the literal (true/false/null/0/1/"s")
+//   {"t":"eq","var":"v1","v":<json>}  script: v1 == <literal>
+//   {"t":"var","var":"v1"}            script: v1
+//   {"t":"obj","k":"w1","v":<json>}   script: ({w1: <literal>})   (adds ?w1)
+func CodeScript(term map[string]interface{}) string {
+	lit := func(v interface{}) string { return Canon(v) }
+	switch term["t"] {
+	case "const":
+		return lit(term["v"])
+	case "eq":
+		return fmt.Sprintf("%s == %s", term["var"], lit(term["v"]))
+	case "var":
+		return fmt.Sprintf("%s", term["var"])
+	case "obj":
+		return fmt.Sprintf("({%s: %s})", term["k"], lit(term["v"]))
+	}
+	return "null"
+}
+
+// evalCode returns (keep, extra bindings, ok); ok=false: the script would
+// fail (unbound variable) and the whole query errors.
+func evalCode(term map[string]interface{}, bs map[string]interface{}) (bool, map[string]interface{}, bool) {
+	truthy := func(v interface{}) bool {
+		if v == nil {
+			return false
+		}
+		if b, ok := v.(bool); ok {
+			return b
+		}
+		return true // any other non-null value keeps the binding
+	}
+	switch term["t"] {
+	case "const":
+		return truthy(term["v"]), nil, true
+	case "eq":
+		v, bound := bs["?"+term["var"].(string)]
+		if !bound {
+			return false, nil, false
+		}
+		return Canon(v) == Canon(term["v"]), nil, true
+	case "var":
+		v, bound := bs["?"+term["var"].(string)]
+		if !bound {
+			return false, nil, false
+		}
+		if m, isMap := v.(map[string]interface{}); isMap {
+			// an object result extends the binding with its fields
+			extra := map[string]interface{}{}
+			for k, x := range m {
+				extra["?"+k] = x
+			}
+			return true, extra, true
+		}
+		return truthy(v), nil, true
+	case "obj":
+		return true, map[string]interface{}{"?" + term["k"].(string): term["v"]}, true
+	}
+	return false, nil, true
+}
+
+func substitute(p interface{}, bs map[string]interface{}) interface{} {
+	switch x := p.(type) {
+	case string:
+		if len(x) > 0 && x[0] == '?' {
+			if v, ok := bs[x]; ok {
+				return Clone(v)
+			}
+		}
+		return x
+	case map[string]interface{}:
+		out := map[string]interface{}{}
+		for k, v := range x {
+			out[k] = substitute(v, bs)
+		}
+		return out
+	case []interface{}:
+		out := make([]interface{}, len(x))
+		for i, v := range x {
+			out[i] = substitute(v, bs)
+		}
+		return out
+	}
+	return p
+}
+
+// EvalQuery is the compositional semantics of queries over the model's facts
+// (local and inherited).  Code terms appear as {"code": <script>, "term": {...}}.
+func (m *Model) EvalQuery(loc string, q map[string]interface{}, in []map[string]interface{}, p Prot) ([]map[string]interface{}, error) {
+	if len(q) == 0 {
+		return in, nil
+	}
+	if _, ok := q["code"]; ok {
+		term, _ := q["term"].(map[string]interface{})
+		var out []map[string]interface{}
+		for _, bs := range in {
+			keep, extra, ok := evalCode(term, bs)
+			if !ok {
+				return nil, refuse("script fails: unbound variable")
+			}
+			if keep {
+				nb := map[string]interface{}{}
+				for k, v := range bs {
+					nb[k] = v
+				}
+				for k, v := range extra {
+					nb[k] = v
+				}
+				out = append(out, nb)
+			}
+		}
+		return out, nil
+	}
+	if pat, ok := q["pattern"]; ok {
+		pm, ok := pat.(map[string]interface{})
+		if !ok {
+			return nil, refuse("pattern is not a map")
+		}
+		var out []map[string]interface{}
+		for _, bs := range in {
+			bound := substitute(pm, bs).(map[string]interface{})
+			names, err := m.Ancestors(loc)
+			if err != nil {
+				return nil, err
+			}
+			for _, n := range names {
+				l := m.Loc(n)
+				if !m.Enabled(l) {
+					return nil, refuse("location disabled")
+				}
+				if !m.CanRead(l, p) {
+					return nil, refuse("read not allowed")
+				}
+				for _, id := range sortedItemIds(l) {
+					it := l.Items[id]
+					if !m.Live(it) {
+						continue
+					}
+					bss, err := core.Matches(matchCtx, CloneMap(bound), CloneMap(it.Body))
+					if err != nil {
+						return nil, refuse("matcher: %v", err)
+					}
+					for _, more := range bss {
+						nb := map[string]interface{}{}
+						for k, v := range bs {
+							nb[k] = v
+						}
+						for k, v := range more {
+							nb[k] = v
+						}
+						out = append(out, nb)
+					}
+				}
+			}
+		}
+		return out, nil
+	}
+	if xs, ok := q["and"]; ok {
+		qs, ok := xs.([]interface{})
+		if !ok {
+			return nil, refuse("and needs an array")
+		}
+		cur := in
+		for _, sub := range qs {
+			sm, ok := sub.(map[string]interface{})
+			if !ok {
+				return nil, refuse("subquery is not a map")
+			}
+			var err error
+			cur, err = m.EvalQuery(loc, sm, cur, p)
+			if err != nil {
+				return nil, err
+			}
+		}
+		return cur, nil
+	}
+	if xs, ok := q["or"]; ok {
+		qs, ok := xs.([]interface{})
+		if !ok {
+			return nil, refuse("or needs an array")
+		}
+		sc, _ := q["shortCircuit"].(bool)
+		var out []map[string]interface{}
+		for _, bs := range in {
+			for _, sub := range qs {
+				sm, ok := sub.(map[string]interface{})
+				if !ok {
+					return nil, refuse("subquery is not a map")
+				}
+				more, err := m.EvalQuery(loc, sm, []map[string]interface{}{bs}, p)
+				if err != nil {
+					return nil, err
+				}
+				out = append(out, more...)
+				if sc && len(more) > 0 {
+					break
+				}
+			}
+		}
+		return out, nil
+	}
+	if x, ok := q["not"]; ok {
+		sm, ok := x.(map[string]interface{})
+		if !ok {
+			return nil, refuse("not needs a map")
+		}
+		var out []map[string]interface{}
+		for _, bs := range in {
+			more, err := m.EvalQuery(loc, sm, []map[string]interface{}{bs}, p)
+			if err != nil {
+				return nil, err
+			}
+			if len(more) == 0 {
+				out = append(out, bs)
+			}
+		}
+		return out, nil
+	}
+	return nil, refuse("unknown query form")
+}
+
+// StripTerms removes the model-only "term" annotations from a query tree,
+// giving the JSON the engine receives.
+func StripTerms(q interface{}) interface{} {
+	switch x := q.(type) {
+	case map[string]interface{}:
+		out := map[string]interface{}{}
+		for k, v := range x {
+			if k == "term" {
+				continue
+			}
+			out[k] = StripTerms(v)
+		}
+		return out
+	case []interface{}:
+		out := make([]interface{}, len(x))
+		for i, v := range x {
+			out[i] = StripTerms(v)
+		}
+		return out
+	}
+	return q
 }
